@@ -86,4 +86,9 @@ TEXTS = {
         "note": "Trusted: Lean kernel; the hand-written model's faithfulness is validated (not proved) by the correspondence run; cosmetic rule parser, IDNA and Unicode lower-casing are external parameters; rustc and third-party crates (regex, idna, memchr).",
         "technique": "Lean 4 theorems (filterMap algebra for line independence; case analysis for formats / rule types; induction over UTF-8 text for char boundaries) + model/implementation correspondence check + totality stream (labelled partial)",
     },
+    "C12": {
+        "level": "Lean 4 model of the hand-rolled URL scanner (C0 trim, scheme loop, special / non-special dispatch, userinfo scan with its two loops and percent-encoding, host scan with brackets and ignored characters, ASCII lower-casing / IDNA), parse_url, Request::new, Request::preparsed and from_detailed_parameters. Kernel-checked theorems, for every IDNA and registrable-domain function: the reported hostname is non-empty and is exactly the host segment of the normalised URL at offset |scheme|+1+|pre|; ASCII hosts are lower-cased, non-ASCII ones are the IDNA output; third-party iff the registrable domains differ (true when the source does not parse); ws/wss force the Websocket type and are supported; is_supported iff scheme in {http, https, ws, wss}; the scheme contains no colon, hence preparsed(normalised url, hostname, source hostname, type, party) equals new() field by field (up to the stored original URL, and exactly when the input was already normalised). PARTIAL for totality (explored under catch_unwind). The public-suffix list itself is data of an external crate: its lookups are compared against a reference algorithm over the crate's own rule file.",
+        "note": "Trusted: Lean kernel; the hand-written model's faithfulness is validated (not proved) by the correspondence run; idna and addr/psl crates are external parameters; rustc.",
+        "technique": "Lean 4 theorems (case analysis over the scanner; induction over the scheme loop) + model/implementation correspondence check + reference public-suffix oracle",
+    },
 }
